@@ -1,7 +1,257 @@
-(* C16 — placeholder while the proofs are being written *)
-From Coq Require Import List ZArith Bool.
-From ABT Require Import DS.Ktable.
+(* C16 — Work-unit-local storage: per-unit key->value map, exactly-once destructors.
+   Only statements here; the models are DS/Ktable.v (sequential, with the block ledger) and
+   Conc/KtableConc.v (interleavings of lazy creation / append / lock-free readers); the proofs
+   live in DS/KtableProofs.v and Conc/KtableConcProofs.v. *)
+From Coq Require Import List ZArith Bool Lia.
+From ABT Require Import Common.ListAux DS.Ktable DS.KtableProofs DS.KtablePlace Conc.KtableConc Conc.KtableConcProofs.
 Import ListNotations.
 Local Open Scope Z_scope.
-Example C16_smoke : ktable_get None (mkK 0 2) = 0.
-Proof. reflexivity. Qed.
+
+(* ------------------------------------------------------------------ table size and slot index *)
+(* ABT_KEY_TABLE_SIZE, whatever its value (unset, unparsable, 0, not a power of two), yields a
+   power of two; for 1 <= v <= 2^31 it is the least one >= v. *)
+Theorem C16_table_size_pow2 : forall env : option Z,
+  exists k, 0 <= k /\ env_key_table_size env = 2 ^ k.
+Proof. exact env_size_pow2. Qed.
+Print Assumptions C16_table_size_pow2.
+
+Theorem C16_table_size_roundup : forall v, 1 <= v <= 2 ^ 31 ->
+  exists k, 0 <= k <= 31 /\ env_key_table_size (Some v) = 2 ^ k /\ v <= 2 ^ k /\
+            (forall j, 0 <= j < k -> 2 ^ j < v).
+Proof.
+  intros v Hv. unfold env_key_table_size, load_env_uint32.
+  replace (Z.max 1 (Z.min U32MAX v)) with v by (unfold U32MAX; lia).
+  apply roundup_pow2_least; auto.
+Qed.
+Print Assumptions C16_table_size_roundup.
+
+(* id & (size - 1) is id mod size, a valid slot, for every power-of-two size (any id, collisions included) *)
+Theorem C16_index_in_bounds : forall id size, (exists k, 0 <= k /\ size = 2 ^ k) ->
+  Z.of_nat (get_idx id size) = id mod size /\ (get_idx id size < Z.to_nat size)%nat.
+Proof. intros id size H. split; [apply get_idx_mod|apply get_idx_range]; exact H. Qed.
+Print Assumptions C16_index_in_bounds.
+
+(* ------------------------------------------------------------------ the map *)
+(* Any sequence of key create/free, unit create/revive/free and set/get through any of the entry
+   points, by the owner, another unit or an external thread, on any number of units and keys, for
+   any ABT_KEY_TABLE_SIZE and any block-size configuration, returns operation by operation what
+   the specification returns: one independent map "key id -> (destructor, value)" per live unit
+   ([sstep]: a get returns the last value set for that key on that unit, 0 = NULL if none; a set
+   touches exactly one (unit, key) point).  Allocation failures are excluded here (next theorem). *)
+Theorem C16_map : forall cfg env ops, Forall nofail ops ->
+  map erase (snd (wrun cfg (world0 env) ops)) = snd (srun sworld0 ops) /\
+  Rel (fst (wrun cfg (world0 env) ops)) (fst (srun sworld0 ops)).
+Proof.
+  intros cfg env ops NF.
+  destruct (wrun_refines cfg ops (world0 env) sworld0 (winv0 env) (rel0 env) NF) as [R E]. auto.
+Qed.
+Print Assumptions C16_map.
+
+Example C16_map_example :
+  (* table of size 1: every key collides; two units; a set by an external thread *)
+  snd (wrun cfg64 (world0 (Some 1))
+         [OUnitCreate 0 false false; OUnitCreate 1 false false; OKeyCreate 1; OKeyCreate 2;
+          OSet false 0 0 11 false false; OSet true 1 1 22 false false; OSet false 0 1 33 false false;
+          OGet 0 0; OGet 0 1; OGet 1 0; OGet 1 1; OSet false 0 0 44 false false; OGet 0 0; OFree 0; OFree 1])
+  = [RRc 0; RRc 0; RKey 2; RKey 3; RRc 0; RRc 0; RRc 0; RVal 11; RVal 33; RVal 0; RVal 22; RRc 0; RVal 44;
+     RFreed [(1, 44); (2, 33)]; RFreed [(2, 22)]].
+Proof. vm_compute. reflexivity. Qed.
+
+(* A set that fails (table or element allocation) reports ABT_ERR_MEM and changes nothing that any
+   get on any unit can see; with no injected failure every set succeeds (part of C16_map). *)
+Theorem C16_set_fail_clean : forall cfg env ops ext u h v fc fe w' rc,
+  let w := fst (wrun cfg (world0 env) ops) in
+  wstep cfg w (OSet ext u h v fc fe) = (w', RRc rc) -> rc <> 0 ->
+  forall u' id, wlook w' u' id = wlook w u' id.
+Proof.
+  intros cfg env ops ext u h v fc fe w' rc w H Hrc.
+  eapply wset_fail_clean; eauto. apply wrun_inv. apply winv0.
+Qed.
+Print Assumptions C16_set_fail_clean.
+
+(* Key ids: as long as the 32-bit counter has not wrapped, the h-th key created has id 2 + h, so
+   distinct handles have distinct ids and none collides with the internal ids 0 and 1: the per-id
+   map above is a per-key map. *)
+Theorem C16_key_ids_distinct : forall cfg env ops,
+  Forall nojump ops ->
+  let w := fst (wrun cfg (world0 env) ops) in
+  forall h k b, nth_error (w_keys w) h = Some (k, b) ->
+  KEY_ID_END + Z.of_nat h < W2 -> k_id k = KEY_ID_END + Z.of_nat h.
+Proof.
+  intros cfg env ops NJ w. apply (ki_ids _ (wrun_kinv cfg ops (world0 env) NJ (kinv0 env))).
+Qed.
+Print Assumptions C16_key_ids_distinct.
+
+(* ------------------------------------------------------------------ destructors *)
+(* When a unit is freed after any history, the destructor calls are exactly: for each key id that
+   was ever set on the unit (each once: [ids] has no duplicates), the recorded destructor applied
+   to the current value, if both are non-NULL.  Nothing else is called. *)
+Theorem C16_dtor_once : forall cfg env ops u w' calls,
+  let w := fst (wrun cfg (world0 env) ops) in
+  wstep cfg w (OFree u) = (w', RFreed calls) ->
+  exists ids, NoDup ids /\ (forall id, In id ids <-> wlook w u id <> None) /\
+              calls = flat_map (fun id => dtor_of (wlook w u id)) ids /\
+              w_dlog w' = w_dlog w ++ calls /\ (forall id, wlook w' u id = None).
+Proof.
+  intros cfg env ops u w' calls w H. eapply wfree_dtors; eauto. apply wrun_inv. apply winv0.
+Qed.
+Print Assumptions C16_dtor_once.
+
+(* ------------------------------------------------------------------ memory blocks *)
+(* After any history: no release was ever rejected (double release, release of a block that is
+   not live, wrong releaser for the block's origin); no block id occurs twice in the release log;
+   every released block was released by the releaser matching how it was obtained; every block
+   ever obtained is either released or owned by exactly one live unit's table; and once every
+   unit has been freed nothing is live. *)
+Theorem C16_blocks_once : forall cfg env ops,
+  let w := fst (wrun cfg (world0 env) ops) in
+  let L := w_led w in
+  l_bad L = [] /\ NoDup (map fst (l_rel L)) /\
+  (forall b r, In (b, r) (l_rel L) -> exists k, In (b, k) (l_all L) /\ kind_ok k r = true) /\
+  (forall b, In b (map fst (l_all L)) ->
+     (In b (map fst (l_rel L)) /\ ~ In b (map fst (l_live L))) \/
+     (~ In b (map fst (l_rel L)) /\
+      exists u ot, find_unit (w_units w) u = Some ot /\ In b (map fst (oused ot)) /\
+        forall u' ot', find_unit (w_units w) u' = Some ot' -> In b (map fst (oused ot')) -> u' = u)) /\
+  (w_units w = [] -> l_live L = []).
+Proof.
+  intros cfg env ops w L. apply binv_blocks.
+  apply wrun_binv; [apply winv0|apply binv0].
+Qed.
+Print Assumptions C16_blocks_once.
+
+(* thread_free releases every block of the unit's table *)
+Theorem C16_free_releases_all : forall cfg env ops u t w' calls,
+  let w := fst (wrun cfg (world0 env) ops) in
+  find_unit (w_units w) u = Some (Some t) ->
+  wstep cfg w (OFree u) = (w', RFreed calls) ->
+  forall b, In b (map fst (t_used t)) ->
+    In b (map fst (l_rel (w_led w'))) /\ ~ In b (map fst (l_live (w_led w'))).
+Proof.
+  intros cfg env ops u t w' calls w E H. eapply wfree_blocks; eauto.
+  - apply wrun_inv. apply winv0.
+  - apply wrun_binv; [apply winv0|apply binv0].
+Qed.
+Print Assumptions C16_free_releases_all.
+
+(* Placement inside the blocks (the byte accounting of ABTI_ktable_create / alloc_elem with the
+   sizes of this build, [cfg64]; [PI] in DS/KtablePlace.v): after any history, in every live
+   table every element lies in a block of the table's p_used_mem chain, behind the block header
+   (behind the table itself in the first block), within the usable bytes of a descriptor block;
+   no two elements overlap; the extra-memory cursor stays inside its block behind every element
+   carved from it. *)
+Theorem C16_elems_placed : forall env ops u t,
+  let w := fst (wrun cfg64 (world0 env) ops) in
+  find_unit (w_units w) u = Some (Some t) ->
+  PI cfg64 t /\ (forall b, In b (map fst (t_used t)) -> 0 <= b < l_next (w_led w)).
+Proof.
+  intros env ops u t w E.
+  apply (n_tabs cfg64 _ (wrun_ninv cfg64 cfg64_ok ops (world0 env) (winv0 env) (ninv0 cfg64 env)) u t E).
+Qed.
+Print Assumptions C16_elems_placed.
+
+Example C16_blocks_example :
+  (* 5 keys on a 16-slot (malloc'ed) table: one malloc block + two descriptor blocks (the second
+     obtained by an external thread), released newest first, each by its own releaser *)
+  let w := fst (wrun cfg64 (world0 (Some 16))
+     [OUnitCreate 7 false false; OKeyCreate 1; OKeyCreate 1; OKeyCreate 1; OKeyCreate 1; OKeyCreate 1;
+      OSet false 7 0 1 false false; OSet false 7 1 2 false false; OSet false 7 2 3 false false;
+      OSet true 7 3 4 false false; OSet false 7 4 5 false false; OFree 7]) in
+  l_all (w_led w) = [(0, BMalloc); (1, BDesc false); (2, BDesc true)] /\
+  l_rel (w_led w) = [(2, RDesc); (1, RDesc); (0, RFree)] /\ l_live (w_led w) = [] /\ l_bad (w_led w) = [].
+Proof. vm_compute. repeat split; reflexivity. Qed.
+
+(* ------------------------------------------------------------------ concurrency *)
+Section Conc.
+Variable slot : Z -> nat.    (* any slot function *)
+Variable fixed : bool.       (* true: the code as it is now; false: before /repo commit a54fdc8 *)
+
+(* Under any interleaving of any number of concurrent setters/getters on one unit: at most one
+   table is ever created; the word never holds anything but that table once set; at most one
+   thread is inside the creation section; every thread inside set_impl works on the published
+   table (no set lands in an orphan table). *)
+Theorem C16_lazy_create_once : forall acts s, run slot fixed init acts = Some s ->
+  (ntab s <= 1)%nat /\
+  (forall n, word s = WTab n -> n = O /\ ntab s = 1%nat) /\
+  (forall x y, creating (pc s x) = true -> creating (pc s y) = true -> x = y) /\
+  (forall x c n, in_impl (pc s x) = Some (c, n) -> word s = WTab n).
+Proof. intros acts s H. apply (create_once slot fixed). eapply inv_reachable; eauto. Qed.
+
+(* No set is lost: the step by which a set returns success makes (key, value) what every reader
+   sees, and no other step changes what readers see for any key. *)
+Theorem C16_no_lost_set : forall acts s t a s',
+  run slot fixed init acts = Some s -> step slot fixed s t a = Some s' ->
+  (pc s' t = SRet 0 /\ exists c, set_of (pc s t) = Some c /\
+     forall k, view slot s' k = if k =? c_key c then Some (c_val c) else view slot s k) \/
+  (pc s' t <> SRet 0 /\ forall k, view slot s' k = view slot s k).
+Proof. intros acts s t a s' H. apply (step_view slot fixed). eapply inv_reachable; eauto. Qed.
+
+(* Concurrent append: in every reachable state every chain has pairwise distinct keys, every
+   element sits in the slot of its key, the table lock has at most one holder; and every step
+   leaves each chain's (key, destructor) sequence a prefix of the new one (append-only: a
+   lock-free walker never loses its position). *)
+Theorem C16_concurrent_append : forall acts s, run slot fixed init acts = Some s ->
+  (forall n i, NoDup (map ekey (chains s n i))) /\
+  (forall n i k, In k (map ekey (chains s n i)) -> slot k = i) /\
+  (forall n x y, incrit n (pc s x) = true -> incrit n (pc s y) = true -> x = y) /\
+  (forall t a s', step slot fixed s t a = Some s' ->
+     forall n i, exists r, kd (chains s' n i) = kd (chains s n i) ++ r).
+Proof.
+  intros acts s H. pose proof (inv_reachable slot fixed acts s H) as I.
+  split; [apply (i_nodup _ _ _ I)|]. split; [apply (i_slot _ _ _ I)|].
+  split; [apply (lock_mutex slot fixed); auto|]. intros t a s'. apply (step_append_only slot fixed); auto.
+Qed.
+
+(* Lock-free readers are linearizable: the value a get returns is the value the unit holds for the
+   key at the get's last step (0 if none). *)
+Theorem C16_lockfree_get : forall acts s t a s' v,
+  run slot fixed init acts = Some s -> step slot fixed s t a = Some s' -> pc s' t = GRet v ->
+  exists k, get_of (pc s t) = Some k /\ v = match view slot s k with Some x => x | None => 0 end.
+Proof. intros acts s t a s' v H. apply (step_get slot fixed). eapply inv_reachable; eauto. Qed.
+
+(* A NULL table pointer is never dereferenced by the current code; before commit a54fdc8 it was,
+   but only on the path "lost the creation race to a creator whose allocation failed". *)
+Theorem C16_null_deref_needs_failed_create : forall acts s, run slot fixed init acts = Some s ->
+  (fixed = true \/ cfailed s = false) -> forall x, pc s x <> Crash.
+Proof. intros acts s H. apply (no_crash slot fixed). eapply inv_reachable; eauto. Qed.
+End Conc.
+Print Assumptions C16_lazy_create_once.
+Print Assumptions C16_no_lost_set.
+Print Assumptions C16_concurrent_append.
+Print Assumptions C16_lockfree_get.
+Print Assumptions C16_null_deref_needs_failed_create.
+
+(* the current code, any slot function, any interleaving, any allocation failures *)
+Theorem C16_no_null_deref : forall slot acts s x, run slot true init acts = Some s -> pc s x <> Crash.
+Proof. intros slot acts s x H. apply (C16_null_deref_needs_failed_create slot true acts s H). auto. Qed.
+Print Assumptions C16_no_null_deref.
+
+(* The same statement was FALSE for the code before commit a54fdc8 (finding of C18/C16, repaired
+   in /repo; fixes/ktable-set-null-after-failed-creator.patch): thread 1 loses the creation race
+   to thread 0, whose ABTI_ktable_create fails; thread 0 stores NULL back; thread 1 leaves
+   `while (p_ktable == ABTI_KTABLE_LOCKED)` with NULL and calls ABTI_ktable_set_impl(NULL).
+   tools/props/c16.py (stage "race") forces exactly this schedule on the implementation on every
+   run: SIGSEGV on the old code, the LTS outcome on the current code. *)
+Theorem C16_loser_null_deref_refuted_before_fix :
+  exists acts s x, run (fun id => Z.to_nat (Z.land id 3)) false init acts = Some s /\ pc s x = Crash.
+Proof. destruct crash_reachable as (s & H1 & H2). exists crash_run, s, 1%nat. auto. Qed.
+Print Assumptions C16_loser_null_deref_refuted_before_fix.
+
+(* the same schedule on the current code: the loser retries and becomes the creator *)
+Example C16_same_schedule_now :
+  exists s, run (fun id => Z.to_nat (Z.land id 3)) true init crash_run = Some s /\ pc s 1%nat = SCreate c2.
+Proof. exact crash_run_fixed. Qed.
+
+(* non-vacuity of the concurrency theorems: two threads race to create the table, both sets land *)
+Example C16_conc_example :
+  let sl := fun id => Z.to_nat (Z.land id 0) in
+  exists s, run sl false init
+    [ (0, ACallSet (mkC 2 11 1)); (1, ACallSet (mkC 3 22 0)); (0, AStep true); (1, AStep true);
+      (0, AStep true) (* CAS wins *); (1, AStep true) (* CAS loses *); (1, AStep true) (* spin *);
+      (0, AStep true) (* create *); (0, AStep true) (* publish *); (1, AStep true) (* sees the table *);
+      (0, AStep true); (1, AStep true) (* both reach the NULL head link *);
+      (0, AStep true) (* lock *); (0, AStep true) (* append, unlock *);
+      (1, AStep true) (* lock *); (1, AStep true) (* re-walk finds key 2, appends after it *) ]%nat = Some s /\
+    ntab s = 1%nat /\ view sl s 2 = Some 11 /\ view sl s 3 = Some 22 /\
+    map ekey (chains s 0 0) = [2; 3] /\ pc s 0%nat = SRet 0 /\ pc s 1%nat = SRet 0.
+Proof. eexists. vm_compute. repeat split; reflexivity. Qed.
